@@ -340,6 +340,172 @@ async fn run_kind(kind: &str, backend: Backend, work: &Path, logs_dir: &Path) ->
     v
 }
 
+/// Device pairing through the relay of a real server, both directions of
+/// the protocol, with every byte of the websocket traffic captured by the
+/// tee: the confirm message carries the new device's signing key and the
+/// device vault; neither they nor any secret plaintext may be readable by
+/// the relay (the wire) or be left on the server's disc, and the enrolled
+/// device's storage must hold them only encrypted.
+async fn run_pairing(backend: Backend, inverted: bool, work: &Path, logs_dir: &Path) -> Value {
+    use sos_net::pairing::{AcceptPairing, OfferPairing};
+    use sos_net::{NetworkAccount, NetworkAccountOptions};
+    let mut fails: Vec<Value> = vec![];
+    let res: Result<Value> = async {
+        let _ = std::fs::remove_dir_all(work);
+        clock::install();
+        let marker = format!("{}PAIR{}{}", BASE, if inverted { "Inv" } else { "Std" }, if backend == Backend::Db { "Db" } else { "Fs" });
+        let mut markers: Vec<(String, Vec<u8>)> = vec![];
+        let cdir = work.join("client");
+        let mut dev = Dev::create(&cdir, backend, "pair-account", true).await?;
+        let m1 = format!("{}One", marker);
+        let (meta, secret) = gen::secret("login", 0, &m1);
+        dev.account.create_secret(meta, secret, Default::default()).await?;
+        markers.push(("secret_fields_current_version".into(), m1.clone().into_bytes()));
+        let f1 = dev.account.create_folder(NewFolderOptions::new("plain-folder-name".into())).await?.folder;
+        let dm = format!("{}Desc", marker);
+        dev.account.set_folder_description(f1.id(), format!("description {}", dm)).await?;
+        markers.push(("folder_description".into(), dm.into_bytes()));
+        for f in dev.account.list_folders().await? {
+            if let Some(AccessKey::Password(p)) = dev.account.find_folder_password(f.id()).await? {
+                use secrecy::ExposeSecret;
+                markers.push(("folder_password".into(), p.expose_secret().as_bytes().to_vec()));
+            }
+        }
+        markers.push(("device_signing_key".into(), dev.account.device_signer().await?.to_bytes().to_vec()));
+        markers.push(("account_password".into(), vkit::acct::PASSWORD.as_bytes().to_vec()));
+        let view = vkit::acct::account_view(&mut dev.account, true).await?;
+        let dump = serde_json::to_vec(&view)?;
+        let account_id: AccountId = dev.account_id;
+        dev.close().await;
+        let server = start_server(&work.join("server"), backend == Backend::Db, None, None).await?;
+        let tee = start_tee(server.addr).await?;
+        // the offering device: the real network account
+        let target = vkit::acct::target_for(&cdir, backend).await?.with_account_id(&account_id);
+        let mut primary = NetworkAccount::new_unauthenticated(account_id, target, NetworkAccountOptions::default()).await?;
+        let key: AccessKey = vkit::acct::password().into();
+        primary.sign_in(&key).await?;
+        if let Some(r) = primary.add_server(tee.origin.clone()).await? {
+            if let Err(e) = r.result {
+                return Err(anyhow!("initial sync failed: {}", e));
+            }
+        }
+        // the accepting device: an empty data directory
+        let c2 = work.join("client2");
+        std::fs::create_dir_all(&c2)?;
+        let target2 = vkit::acct::target_for(&c2, backend).await?;
+        let device_meta: sos_core::device::DeviceMetaData = Default::default();
+        let (otx, offer_shutdown_rx) = tokio::sync::mpsc::channel::<()>(1);
+        let (atx, accept_shutdown_rx) = tokio::sync::mpsc::channel::<()>(1);
+        let mut enrollment = {
+            let (mut offer, offer_stream, mut accept, accept_stream) = if inverted {
+                let (share_url, accept, accept_stream) =
+                    AcceptPairing::new_inverted(account_id, tee.origin.url().clone(), &device_meta, target2, Default::default()).await?;
+                let (offer, offer_stream) = OfferPairing::new_inverted(&mut primary, share_url).await?;
+                (offer, offer_stream, accept, accept_stream)
+            } else {
+                let (offer, offer_stream) = OfferPairing::new(&mut primary, tee.origin.url().clone()).await?;
+                let share_url = offer.share_url().clone();
+                // the share URL itself travels out of band (QR code); its
+                // pre-shared key must not be visible to the relay either
+                markers.push(("pairing_pre_shared_key".into(), share_url.pre_shared_key().to_vec()));
+                let (accept, accept_stream) = AcceptPairing::new(share_url, &device_meta, target2, Default::default()).await?;
+                (offer, offer_stream, accept, accept_stream)
+            };
+            let both = async {
+                let (a, b) = tokio::join!(offer.run(offer_stream, offer_shutdown_rx), accept.run(accept_stream, accept_shutdown_rx));
+                a.map_err(|e| anyhow!("offer side: {}", e))?;
+                b.map_err(|e| anyhow!("accept side: {}", e))?;
+                Ok::<_, anyhow::Error>(())
+            };
+            tokio::time::timeout(std::time::Duration::from_secs(120), both).await.map_err(|_| anyhow!("pairing protocol did not finish in 120 s"))??;
+            drop(offer);
+            accept.take_enrollment().map_err(|e| anyhow!("take_enrollment: {}", e))?
+        };
+        drop(otx);
+        drop(atx);
+        enrollment.fetch_account().await.map_err(|e| anyhow!("fetch_account: {}", e))?;
+        let mut second = enrollment.finish(&key).await.map_err(|e| anyhow!("finish: {}", e))?;
+        // what was transported inside the tunnel
+        let new_signer = second.device_signer().await?;
+        markers.push(("paired_device_signing_key".into(), new_signer.to_bytes().to_vec()));
+        // the enrolled device works: it can sync an edit, and (re-opened
+        // as a plain local account) it sees the marker secret
+        use sos_protocol::AccountSync as _;
+        let m2 = format!("{}Two", marker);
+        let (meta, secret) = gen::secret("note", 1, &m2);
+        second.create_secret(meta, secret, Default::default()).await?;
+        markers.push(("secret_created_on_paired_device".into(), m2.into_bytes()));
+        let _ = second.sync().await;
+        let _ = primary.sync().await;
+        let _ = second.sign_out().await;
+        let _ = primary.sign_out().await;
+        drop(second);
+        drop(primary);
+        let dump2 = {
+            let mut d = Dev::open(&c2, backend, account_id, vkit::acct::password()).await?;
+            let v = vkit::acct::account_view(&mut d.account, true).await?;
+            d.close().await;
+            serde_json::to_vec(&v)?
+        };
+        server.stop().await;
+        tee.task.abort();
+        let wire = tee.captured.lock().unwrap().clone();
+        let control_ok = memmem(&dump, m1.as_bytes()) && memmem(&dump2, m1.as_bytes());
+        std::fs::write(work.join("client").join("planted-control.txt"), format!("xx{}yy", m1))?;
+        let mut hay: Vec<(String, Vec<u8>)> = vec![("wire:tee".to_string(), wire.clone())];
+        for p in fsutil::walk_files(logs_dir) {
+            if let Ok(b) = std::fs::read(&p) {
+                hay.push((format!("logs/{}", p.file_name().unwrap().to_string_lossy()), b));
+            }
+        }
+        for root in ["client", "client2", "server"] {
+            for p in fsutil::walk_files(&work.join(root)) {
+                if let Ok(b) = std::fs::read(&p) {
+                    hay.push((p.strip_prefix(work).unwrap().to_string_lossy().to_string(), b));
+                }
+            }
+        }
+        let mut planted_found = false;
+        let mut scanned_bytes = 0u64;
+        let mut checks = 0u64;
+        for (hname, h) in &hay {
+            scanned_bytes += h.len() as u64;
+            for (mname, m) in &markers {
+                for (fname, f) in forms(m) {
+                    checks += 1;
+                    if memmem(h, &f) {
+                        if hname.ends_with("planted-control.txt") {
+                            planted_found = true;
+                            continue;
+                        }
+                        let place = if hname.starts_with("wire") {
+                            "wire".to_string()
+                        } else if hname.starts_with("logs/") {
+                            "log_file".to_string()
+                        } else {
+                            let top = hname.split('/').next().unwrap_or("");
+                            let file = hname.rsplit('/').next().unwrap_or("");
+                            format!("{}:{}", if top == "client2" { "client" } else { top }, file.rsplit('.').next().unwrap_or(""))
+                        };
+                        fails.push(json!({"sig": format!("plaintext_found:{}:{}:{}", mname, place, fname), "what": format!("pairing: the {} marker occurs ({}) in {}", mname, fname, hname), "detail": {"kind": "pairing", "inverted": inverted, "backend": backend.name(), "where": hname}}));
+                    }
+                }
+            }
+        }
+        if !planted_found || !control_ok {
+            return Err(anyhow!("positive control failed (planted marker found: {}, marker secret readable on both devices: {})", planted_found, control_ok));
+        }
+        Ok(json!({"markers": markers.len(), "haystacks": hay.len(), "scanned_bytes": scanned_bytes, "wire_bytes": wire.len(), "checks": checks}))
+    }
+    .await;
+    let mut v = match res {
+        Ok(v) => v,
+        Err(e) => json!({"error": e.to_string()}),
+    };
+    v["fails"] = json!(fails);
+    v
+}
+
 async fn inflate(bytes: &[u8]) -> Result<Vec<(String, Vec<u8>)>> {
     use async_zip::base::read::mem::ZipFileReader;
     use futures::AsyncReadExt as _;
@@ -361,6 +527,11 @@ fn rt() -> tokio::runtime::Runtime {
 
 fn items(tier: Tier) -> Vec<(String, Backend)> {
     let mut v = vec![];
+    // device pairing: both directions of the protocol on both backends
+    for b in [Backend::Fs, Backend::Db] {
+        v.push(("pairing".to_string(), b));
+        v.push(("pairing_inverted".to_string(), b));
+    }
     for k in gen::KINDS {
         v.push((k.to_string(), Backend::Fs));
         if tier == Tier::Thorough || ["note", "login", "file", "contact", "totp"].contains(&k) {
@@ -384,7 +555,11 @@ fn main() {
         let _ = sos_logs::Logger::new_dir(logs_dir.clone(), "saveoursecrets.log".to_string()).init_file_subscriber(None);
         pool::worker_loop(|idx| {
             let (k, b) = &its[idx];
-            rt.block_on(run_kind(k, *b, &wd.path().join("w"), &logs_dir))
+            if k.starts_with("pairing") {
+                rt.block_on(run_pairing(*b, k == "pairing_inverted", &wd.path().join("w"), &logs_dir))
+            } else {
+                rt.block_on(run_kind(k, *b, &wd.path().join("w"), &logs_dir))
+            }
         });
     }
     let mut run = Run::new("C03", "model_checking", &args);
@@ -419,7 +594,7 @@ fn main() {
         run.machinery("vacuous: nothing captured on the wire or nothing scanned");
     }
     run.assume("absence of the enumerated encodings of each marker is what is decided; the cryptographic strength of the ciphers is trusted");
-    run.assume("folder names, account names and identifiers are not markers (the property allows them in the clear); pairing messages are not driven at this commit");
+    run.assume("folder names, account names and identifiers are not markers (the property allows them in the clear)");
     let mut cov = Map::new();
     cov.insert("states".into(), json!(its.len()));
     cov.insert("transitions".into(), json!(its.len() * 9));
@@ -430,7 +605,7 @@ fn main() {
     cov.insert("wire_bytes_captured".into(), json!(wire));
     cov.insert("files_and_streams_scanned".into(), json!(hay));
     cov.insert("exhaustive".into(), json!(true));
-    cov.insert("rule".into(), json!("all 15 secret kinds x client backend (fs for all, sqlite for 5 kinds in quick / all in thorough); one fixed 9-step history per kind whose every plaintext carries a marker; every file of both client directories and the server directory (archives also inflated) and the full TCP capture scanned for every marker in raw / hex / base64 (3 alignments, std and url) / UTF-16 / JSON-escaped form; positive control: planted marker found and markers present in the decrypted view"));
+    cov.insert("rule".into(), json!("device pairing (offer/accept and the inverted protocol) on both backends through the server's relay with all websocket traffic captured, then per kind: all 15 secret kinds x client backend (fs for all, sqlite for 5 kinds in quick / all in thorough); one fixed 9-step history per kind whose every plaintext carries a marker; every file of both client directories and the server directory (archives also inflated) and the full TCP capture scanned for every marker in raw / hex / base64 (3 alignments, std and url) / UTF-16 / JSON-escaped form; positive control: planted marker found and markers present in the decrypted view"));
     let _ = PathBuf::new();
     std::process::exit(run.finish(cov));
 }
